@@ -312,6 +312,8 @@ impl CoreInner {
 			);
 		}
 
+		#[cfg(feature = "verif")]
+		crate::verif::yield_sync("flush.pre_manifest");
 		// Step 3: Prepare atomic changeset
 		let mut changeset = ManifestChangeSet::default();
 		changeset.new_tables.push((0, Arc::clone(&table)));
@@ -359,6 +361,8 @@ impl CoreInner {
 
 		// After successful manifest commit, cleanup obsolete vlog files and stale index entries
 		let min_oldest_vlog = manifest.min_oldest_vlog_file_id();
+		#[cfg(feature = "verif")]
+		crate::verif::note("flush.done", table_id, wal_number);
 		cleanup_vlog_and_index(&self.vlog, &self.versioned_index, min_oldest_vlog, "flush");
 
 		Ok(table)
@@ -960,6 +964,8 @@ impl CommitEnv for LsmCommitEnv {
 			Err(Error::ArenaFull) => {
 				// Arena is full - rotate memtable and retry
 				log::debug!("apply: arena full, rotating memtable");
+				#[cfg(feature = "verif")]
+				crate::verif::yield_sync("apply.arena_full");
 
 				self.core.rotate_memtable()?;
 
@@ -968,6 +974,8 @@ impl CommitEnv for LsmCommitEnv {
 					task_manager.wake_up_memtable();
 				}
 
+				#[cfg(feature = "verif")]
+				crate::verif::yield_sync("apply.post_rotate");
 				// Retry on new memtable - must succeed
 				let active_memtable = self.core.active_memtable.read()?;
 				active_memtable.add(batch)
